@@ -63,6 +63,30 @@ func xScenarios() []xScenario {
 			o.Fields["@GetOneofConfig"] = oneofConfig("kind", true)
 			return m, []string{"id", "kind", "body", "url", "altText"}
 		}, "_oneof_discriminator.pb.go"},
+		{"flattened discriminated oneof beside a nested discriminated oneof", func() (*VStruct, []string) {
+			a := fld("text", "message").msg(cMessage("TextContent", fld("body", "string")))
+			b := fld("image_ref", "message").msg(cMessage("ImageContent", fld("url", "string"), fld("alt_text", "string")))
+			u := fld("user", "message").msg(cMessage("UserSource", fld("name", "string")))
+			w := fld("bot_agent", "message").msg(cMessage("BotSource", fld("model", "string")))
+			m := cMessage("Event", fld("id", "string"), a, b, u, w)
+			o := cOneof(m, "content", a, b)
+			o.Fields["@GetOneofConfig"] = oneofConfig("kind", true)
+			o2 := cOneof(m, "source", u, w)
+			o2.Fields["@GetOneofConfig"] = oneofConfig("sourceKind", false)
+			return m, []string{"id", "kind", "body", "url", "altText", "sourceKind", "user", "botAgent"}
+		}, "_oneof_discriminator.pb.go"},
+		{"nested discriminated oneof listed before a flattened one", func() (*VStruct, []string) {
+			u := fld("user", "message").msg(cMessage("UserSource", fld("name", "string")))
+			w := fld("bot_agent", "message").msg(cMessage("BotSource", fld("model", "string")))
+			a := fld("text", "message").msg(cMessage("TextContent", fld("body", "string")))
+			b := fld("image_ref", "message").msg(cMessage("ImageContent", fld("url", "string")))
+			m := cMessage("Event", u, w, fld("id", "string"), a, b)
+			o2 := cOneof(m, "source", u, w)
+			o2.Fields["@GetOneofConfig"] = oneofConfig("sourceKind", false)
+			o := cOneof(m, "content", a, b)
+			o.Fields["@GetOneofConfig"] = oneofConfig("kind", true)
+			return m, []string{"id", "kind", "body", "url", "sourceKind", "user", "botAgent"}
+		}, "_oneof_discriminator.pb.go"},
 	}
 }
 
